@@ -390,8 +390,13 @@ func buildCompoundOperator(o interface{}, depth int, operator string) (string, b
 
 				ands = append(ands, bldexpr)
 			} else {
+				// a plain object path, boolean or number is an operand like everywhere else
+				ope, err := parseOperand(andarr[i], false, false)
+				if err != nil {
 
-				return "", false, fmt.Errorf("and operands must be an array of objects")
+					return "", false, err
+				}
+				ands = append(ands, ope)
 			}
 		}
 		if depth > 0 {
